@@ -213,4 +213,197 @@ where
 theorem Ret.not_term {a : Ret} (h : ¬ a = .term) : a = .cont := by cases a <;> simp at h ⊢
 
 
+
+/-- `exec_preserves` for predicates that also look at the run_if call log -/
+theorem exec_preserves2 (cfg : Cfg) (P : St → Prop)
+    (hrun : ∀ p sub st, P st → P (runPhase cfg p sub st).1)
+    (hskip : ∀ p sub st, P st → P (skipPhase p sub st))
+    (hck : ∀ c sub st, P st → P (evalCheckpoint c sub st).1)
+    (hmod : ∀ (a b : St), P a → b.phases = a.phases → b.last = a.last → b.runIfCalls = a.runIfCalls → P b) :
+    ∀ (n : Node) (sub : Option Nat) (td : Bool) (st : St), P st → P (exec cfg n sub td st).1
+  | .phase p, sub, td, st, h => by
+    simp only [exec, execPhaseNode]; split
+    · exact hskip p sub st h
+    · exact hrun p sub st h
+  | .checkpoint c, sub, td, st, h => by
+    simp only [exec, execCheckpoint]; split
+    · exact hmod st _ h rfl rfl rfl
+    · exact hck c sub st h
+  | .seq ns, sub, td, st, h => by
+    simp only [exec]; split
+    · exact lTd ns sub st h
+    · exact lAb ns sub st h
+  | .subtest name ns, sub, td, st, h => by
+    simp only [exec]
+    have h0 := hmod st { st with subFail := sub.isSome && st.subFail } h rfl rfl rfl
+    split
+    · exact hmod _ _ (lTd ns (some name) _ h0) rfl rfl rfl
+    · exact hmod _ _ (lAb ns (some name) _ h0) rfl rfl rfl
+  | .branch id c ns, sub, td, st, h => by
+    simp only [exec]
+    split
+    · exact h
+    · split
+      · split
+        · exact hmod _ _ (lTd ns sub st h) rfl rfl rfl
+        · exact hmod _ _ (lAb ns sub st h) rfl rfl rfl
+      · exact hmod _ _ h rfl rfl rfl
+  | .group s m t, sub, td, st, h => by
+    simp only [exec]
+    cases td
+    · simp only [Bool.false_eq_true, if_false]
+      have h1 := lAb s sub st h
+      split
+      · exact h1
+      · have h2 := lAb m sub _ h1
+        split
+        · exact lTd t sub _ h2
+        · exact lAb t sub _ h2
+    · simp only [if_true]
+      have h1 := lTd s sub st h
+      split
+      · exact h1
+      · have h2 := lTd m sub _ h1
+        split
+        · exact lTd t sub _ h2
+        · exact lAb t sub _ h2
+where
+  lAb : ∀ (ns : List Node) (sub : Option Nat) (st : St), P st → P (execAb cfg ns sub st).1
+    | [], sub, st, h => by simpa [execAb] using h
+    | n :: ns, sub, st, h => by
+      simp only [execAb]
+      have h1 := exec_preserves2 cfg P hrun hskip hck hmod n sub false st h
+      split
+      · exact h1
+      · exact lAb ns sub _ h1
+  lTd : ∀ (ns : List Node) (sub : Option Nat) (st : St), P st → P (execTd cfg ns sub st).1
+    | [], sub, st, h => by simpa [execTd] using h
+    | n :: ns, sub, st, h => by
+      simp only [execTd]
+      exact lTd ns sub _ (exec_preserves2 cfg P hrun hskip hck hmod n sub true st h)
+
+
+/-- the run_if call log of `b` extends that of `a` -/
+def GrowsRI (a b : St) : Prop := ∃ l, b.runIfCalls = a.runIfCalls ++ l
+theorem GrowsRI.refl (a : St) : GrowsRI a a := ⟨[], by simp⟩
+theorem GrowsRI.trans {a b c : St} (h1 : GrowsRI a b) (h2 : GrowsRI b c) : GrowsRI a c := by
+  obtain ⟨r1, e1⟩ := h1; obtain ⟨r2, e2⟩ := h2
+  exact ⟨r1 ++ r2, by rw [e2, e1, List.append_assoc]⟩
+theorem GrowsRI.mem {a b : St} (h : GrowsRI a b) {x : Nat} (hx : x ∈ a.runIfCalls) : x ∈ b.runIfCalls := by
+  obtain ⟨rs, e⟩ := h; rw [e]; exact List.mem_append_left _ hx
+
+theorem once_growsRI (cfg : Cfg) (p : Phase) (sub : Option Nat) (isLast : Bool) (st : St) :
+    GrowsRI st (executePhaseOnce cfg p sub isLast st).1 := by
+  unfold executePhaseOnce
+  cases hri : p.opts.runIf with
+  | none => exact ⟨[], by simp [addDiagnoses]⟩
+  | some f =>
+    simp only
+    cases hf : f (count st.runIfCalls p.id) with
+    | none => exact ⟨[p.id], by simp⟩
+    | some b => cases b
+                · exact ⟨[p.id], by simp⟩
+                · exact ⟨[p.id], by simp [addDiagnoses]⟩
+
+/-- one attempt leaves a record of the phase or an entry in the run_if call log -/
+theorem once_record_or_runIf (cfg : Cfg) (p : Phase) (sub : Option Nat) (isLast : Bool) (st : St) :
+    (∃ r ∈ (executePhaseOnce cfg p sub isLast st).1.phases, r.id = p.id) ∨
+    (p.opts.runIf.isSome = true ∧ p.id ∈ (executePhaseOnce cfg p sub isLast st).1.runIfCalls) := by
+  cases hri : p.opts.runIf with
+  | none => exact Or.inl (once_leaves_record cfg p sub isLast st hri)
+  | some f =>
+    right
+    refine ⟨rfl, ?_⟩
+    unfold executePhaseOnce
+    simp only [hri]
+    cases hf : f (count st.runIfCalls p.id) with
+    | none => simp
+    | some b => cases b <;> simp [addDiagnoses]
+
+theorem loop_growsRI (cfg : Cfg) (p : Phase) (sub : Option Nat) (limit : Nat) :
+    ∀ (fuel n : Nat) (st : St), GrowsRI st (executePhaseLoop cfg p sub limit fuel n st).1
+  | 0, _, st => by simp only [executePhaseLoop]; exact GrowsRI.refl st
+  | fuel+1, n, st => by
+    simp only [executePhaseLoop]
+    split
+    · exact (once_growsRI cfg p sub _ st).trans (loop_growsRI cfg p sub limit fuel (n+1) _)
+    · exact once_growsRI cfg p sub _ st
+
+theorem loop_record_or_runIf (cfg : Cfg) (p : Phase) (sub : Option Nat) (limit : Nat) :
+    ∀ (fuel n : Nat) (st : St), 0 < fuel →
+      (∃ r ∈ (executePhaseLoop cfg p sub limit fuel n st).1.phases, r.id = p.id) ∨
+      (p.opts.runIf.isSome = true ∧ p.id ∈ (executePhaseLoop cfg p sub limit fuel n st).1.runIfCalls)
+  | fuel+1, n, st, _ => by
+    simp only [executePhaseLoop]
+    rcases once_record_or_runIf cfg p sub (decide (n ≥ limit)) st with ⟨r, hr, hid⟩ | ⟨hs, hm⟩
+    · split
+      · exact Or.inl ⟨r, (loop_grows cfg p sub limit fuel (n+1) _).mem hr, hid⟩
+      · exact Or.inl ⟨r, hr, hid⟩
+    · split
+      · exact Or.inr ⟨hs, (loop_growsRI cfg p sub limit fuel (n+1) _).mem hm⟩
+      · exact Or.inr ⟨hs, hm⟩
+
+theorem finishNode_runIfCalls (st : St) (o : Res) : (finishNode st o).1.runIfCalls = st.runIfCalls := by
+  unfold finishNode; split
+  · simp [setLast]
+  · split <;> rfl
+
+theorem runPhase_growsRI (cfg : Cfg) (p : Phase) (sub : Option Nat) (st : St) : GrowsRI st (runPhase cfg p sub st).1 := by
+  unfold runPhase executePhase
+  obtain ⟨l, e⟩ := loop_growsRI cfg p sub (repeatLimit cfg p.opts) (repeatLimit cfg p.opts) 1 st
+  exact ⟨l, by rw [finishNode_runIfCalls, e]⟩
+
+theorem runPhase_record_or_runIf (cfg : Cfg) (hc : 0 < cfg.defaultRepeatLimit) (p : Phase) (sub : Option Nat) (st : St) :
+    (∃ r ∈ (runPhase cfg p sub st).1.phases, r.id = p.id) ∨
+    (p.opts.runIf.isSome = true ∧ p.id ∈ (runPhase cfg p sub st).1.runIfCalls) := by
+  unfold runPhase executePhase
+  simp only [finishNode_phases, finishNode_runIfCalls]
+  exact loop_record_or_runIf cfg p sub _ _ 1 st (repeatLimit_pos cfg p.opts hc)
+
+theorem exec_growsRI (cfg : Cfg) (n : Node) (sub : Option Nat) (td : Bool) (st : St) : GrowsRI st (exec cfg n sub td st).1 :=
+  exec_preserves2 cfg (GrowsRI st)
+    (fun p sub s h => h.trans (runPhase_growsRI cfg p sub s))
+    (fun p sub s h => h.trans ⟨[], by simp [skipPhase]⟩)
+    (fun c sub s h => h.trans ⟨[], by simp [evalCheckpoint, finishNode_runIfCalls]⟩)
+    (fun a b h _ _ hr => by obtain ⟨rs, e⟩ := h; exact ⟨rs, by rw [hr, e]⟩)
+    n sub td st (GrowsRI.refl st)
+theorem execAb_growsRI (cfg : Cfg) (ns : List Node) (sub : Option Nat) (st : St) : GrowsRI st (execAb cfg ns sub st).1 :=
+  exec_preserves2.lAb cfg (GrowsRI st)
+    (fun p sub s h => h.trans (runPhase_growsRI cfg p sub s))
+    (fun p sub s h => h.trans ⟨[], by simp [skipPhase]⟩)
+    (fun c sub s h => h.trans ⟨[], by simp [evalCheckpoint, finishNode_runIfCalls]⟩)
+    (fun a b h _ _ hr => by obtain ⟨rs, e⟩ := h; exact ⟨rs, by rw [hr, e]⟩)
+    ns sub st (GrowsRI.refl st)
+theorem execTd_growsRI (cfg : Cfg) (ns : List Node) (sub : Option Nat) (st : St) : GrowsRI st (execTd cfg ns sub st).1 :=
+  exec_preserves2.lTd cfg (GrowsRI st)
+    (fun p sub s h => h.trans (runPhase_growsRI cfg p sub s))
+    (fun p sub s h => h.trans ⟨[], by simp [skipPhase]⟩)
+    (fun c sub s h => h.trans ⟨[], by simp [evalCheckpoint, finishNode_runIfCalls]⟩)
+    (fun a b h _ _ hr => by obtain ⟨rs, e⟩ := h; exact ⟨rs, by rw [hr, e]⟩)
+    ns sub st (GrowsRI.refl st)
+
+mutual
+/-- every phase a node declares outside branches and subtests, with or without `run_if` -/
+def declaredU : Node → List Phase
+  | .phase p => [p]
+  | .checkpoint _ => []
+  | .seq ns => declaredUL ns
+  | .subtest _ _ => []
+  | .branch _ _ _ => []
+  | .group s m t => declaredUL s ++ (declaredUL m ++ declaredUL t)
+def declaredUL : List Node → List Phase
+  | [] => []
+  | n :: ns => declaredU n ++ declaredUL ns
+end
+
+/-- phase `p` is accounted for in state `fin`: it has a record, or it has a `run_if` and that was evaluated -/
+def Acc (fin : St) (p : Phase) : Prop :=
+  (∃ r ∈ fin.phases, r.id = p.id) ∨ (p.opts.runIf.isSome = true ∧ p.id ∈ fin.runIfCalls)
+
+theorem Acc.mono {a b : St} {p : Phase} (h1 : Grows a b) (h2 : GrowsRI a b) (h : Acc a p) : Acc b p := by
+  rcases h with ⟨r, hr, hid⟩ | ⟨hs, hm⟩
+  · exact Or.inl ⟨r, h1.mem hr, hid⟩
+  · exact Or.inr ⟨hs, h2.mem hm⟩
+
+
 end OpenHTF.Exec
